@@ -126,7 +126,12 @@ class Sut:
             # any HDAP message that is not a registration-service one: the captured ones, or a generated message of any other
             # family / opcode (the builders of the C12 driver)
             k = self.rng.random()
-            if k < 0.4:
+            if m.get("other") is not None:
+                # directed: the message of this family / opcode (index into the builders of the C12 driver that are not RRS)
+                from harness.drivers import c12
+                bs = [b for b in c12.builders() if b[0] != "RRS"]
+                raw_payload = bs[m["other"] % len(bs)][2](self.rng).as_bytes()[:260]
+            elif k < 0.4:
                 raw_payload = bytes.fromhex(self.rng.choice(OTHER_HDAP))
             elif k < 0.5:
                 # a text message whose text is not valid UTF-16 (odd length, lone surrogate): well-formed HDAP all the same
@@ -200,7 +205,8 @@ def run_steps(args):
         elif st[0] == "raw":
             ev.append(strip(sut.recv(bytes.fromhex(st[1]), dict(GARBAGE))))
         elif st[0] == "trunc":
-            data = sut.build(st[1])[:st[2]]
+            data = sut.build(st[1])
+            data = data[:st[2]] if st[2] >= 0 else data[:max(0, len(data) + st[2])]
             ev.append(strip(sut.recv(data, dict(GARBAGE))))
         elif st[0] == "flip":
             data = bytearray(sut.build(st[1]))
@@ -539,6 +545,21 @@ def judge(ctx, traces, rejects, origin):
                        "loop": t.get("loop")})
 
 
+def directed_cut_steps(rng):
+    """every non-RRS HDAP opcode inside a REJECT and inside a plain data message, with its tail cut by 1..14 octets (what remains
+    may still parse as the message it was - with fields missing)"""
+    from harness.drivers import c12
+    nb = len([b for b in c12.builders() if b[0] != "RRS"])
+    steps = [("clean", msg(("conn",), sn=1))]
+    for idx in range(nb):
+        for cut in range(1, 15):
+            for flags in (("rej",), ()):
+                m = msg(flags, sn=rng.randrange(65536), payload="hdap_other")
+                m["other"] = idx
+                steps.append(("trunc", m, -cut))
+    return steps
+
+
 def random_steps(rng, n):
     radios = ["10.0.0.%d" % i for i in range(1, 6)] + ["10.2.3.4", "11.255.255.254"]
     steps = []
@@ -562,8 +583,11 @@ def random_steps(rng, n):
             steps.append(("clean", m))
         elif kind < 0.80:
             steps.append(("clean", dict(GARBAGE)))
-        elif kind < 0.90:
+        elif kind < 0.86:
             steps.append(("trunc", m, rng.randrange(0, 30)))
+        elif kind < 0.90:
+            # cut from the end: the tail of the payload is missing (one to a dozen octets), the head still parses as what it was
+            steps.append(("trunc", m, -rng.randrange(1, 13)))
         else:
             steps.append(("flip", m, [rng.randrange(0, 240) for _ in range(rng.choice([1, 2]))]))
     return steps
@@ -636,6 +660,9 @@ def run(ctx):
     jobs = [(ctx.seed * 17 + i, random_steps(ctx.rng, ctx.rng.randrange(5, ln)),
              0 if i % 4 else ctx.rng.choice([65534, 65533, 65532, 65530, 65500, 32767, 255]))
             for i in range(n)]
+    # directed: every non-RRS opcode with its tail cut, inside REJECT and plain data messages (split into histories of ~120 steps)
+    dsteps = directed_cut_steps(ctx.rng)
+    jobs += [(ctx.seed * 19 + k, dsteps[k:k + 120], 0) for k in range(0, len(dsteps), 120)]
     with Pool(core.NCPU) as pool:
         hist = pool.map(run_steps, jobs, chunksize=8)
     for t, j in zip(hist, jobs):
